@@ -412,6 +412,67 @@ def c08_judge(world: macrolib.World, out: dict) -> list[dict]:
                 got = posixpath.normpath(posixpath.join(base_dir if base_dir.startswith("/") else posixpath.join(v.cwd, base_dir), rel))
                 if got != defining:
                     problems.append({"clause": "names-defining-file", "detail": f"op {off}: {rel!r} -> {got}, macro {macro} is defined in {defining}"})
+    # the call site recorded on the first op of an expansion names a file too: at that line and column of that file a macro
+    # call must be written, and the macro called there must be the one whose expansion this op starts (its own first op,
+    # or - for a macro that begins with a call - the first op of that callee, and so on)
+    import re as _re
+
+    for off_s, ent in macro_map.items():
+        called_in = ent[4]
+        if not called_in:
+            continue
+        rel, line, col = called_in
+        path = main_real if rel is None else posixpath.normpath(posixpath.join(base_dir if base_dir.startswith("/") else posixpath.join(v.cwd, base_dir), rel))
+        rp, ex = v._resolve(path)
+        if not ex or v.nodes[rp][0] != "f":
+            problems.append({"clause": "call-site-names-the-calling-file", "detail": f"op {off_s}: called_in {called_in} names no file"})
+            continue
+        lines_ = v.nodes[rp][1].decode().split("\n")
+        text = lines_[line][col:] if 0 <= line < len(lines_) else ""
+        m_ = _re.match(r"~([A-Za-z_][A-Za-z0-9_]*)", text)
+        if not m_:
+            problems.append({"clause": "call-site-names-the-calling-file", "detail": f"op {off_s}: no macro call at {rp}:{line}:{col} ({text[:30]!r})"})
+            continue
+        lib = getattr(world, "lib", None)
+        if lib is not None and m_.group(1) in lib.macros:
+            name = m_.group(1)
+            seen_ = set()
+            while lib.macros[name].call_first and lib.macros[name].callees and name not in seen_:
+                seen_.add(name)
+                name = lib.macros[name].callees[0]
+            if name != ent[1]:
+                problems.append({"clause": "call-site-names-the-calling-file",
+                                 "detail": f"op {off_s} belongs to macro {ent[1]}, the call at {rp}:{line}:{col} starts an expansion of {name}"})
+    # return addresses (necessary conditions that need no model of the expansion): within a routine, a maximal run of
+    # consecutive ops that come from macros is one or several complete expansions in a row; the largest return address in
+    # the run belongs to an outermost expansion that ends with the run, so it lies after the run's last op and not after
+    # the op that follows the run (it may be the number of an op dropped in between); every op's own return address
+    # lies after that op and not after the largest one
+    for r_ in dg["routines"]:
+        offs = [o_["off"] for o_ in r_["ops"]]
+        i_ = 0
+        while i_ < len(offs):
+            if str(offs[i_]) not in macro_map:
+                i_ += 1
+                continue
+            j_ = i_
+            while j_ + 1 < len(offs) and str(offs[j_ + 1]) in macro_map:
+                j_ += 1
+            run = offs[i_:j_ + 1]
+            ras = [macro_map[str(o_)][5] for o_ in run]
+            if any(not isinstance(x, int) for x in ras):
+                problems.append({"clause": "return-address-bounds", "detail": f"ops {run[0]}..{run[-1]}: a macro entry without return address"})
+            else:
+                last_ra = ras[-1]
+                nxt = offs[j_ + 1] if j_ + 1 < len(offs) else None
+                if not (last_ra > run[-1] and (nxt is None or last_ra <= nxt)):
+                    problems.append({"clause": "return-address-bounds",
+                                     "detail": f"run {run[0]}..{run[-1]} (next op {nxt}): return address of its last op is {last_ra}"})
+                for o_, ra in zip(run, ras):
+                    if not (ra > o_ and (nxt is None or ra <= nxt)):
+                        problems.append({"clause": "return-address-bounds", "detail": f"op {o_}: return address {ra} (run ends at {run[-1]}, next op {nxt})"})
+                        break
+            i_ = j_ + 1
     inc = set(out.get("included_files", []))
     if inc != contributing:
         problems.append({"clause": "included-files-are-the-contributing-files",
